@@ -58,6 +58,8 @@ class Interp:
             return v.t
         if isinstance(v, bool):
             return z3.BoolVal(v)
+        if ty == FP64 and isinstance(v, (int, float)):
+            return z3.FPVal(v, z3.Float64())
         if isinstance(v, int):
             if ty == REAL:
                 return z3.RealVal(v)
@@ -111,6 +113,8 @@ class Interp:
                 return self.opt_payload(v)
             if ty == REAL and v.t.sort() == I:
                 return z3.ToReal(v.t)
+            if (ty == FP64) != (v.ty == FP64) and ty in (FP64, REAL, INT):
+                raise Unsupported('conversion between fp64 and mathematical numbers')
             return v.t
         return self.lift(v, ty)
 
@@ -260,6 +264,8 @@ class Interp:
                 return v.t != 0
             if ty == REAL:
                 return v.t != 0
+            if ty == FP64:
+                return z3.Not(z3.fpIsZero(v.t))
             if ty == STR:
                 return v.t != STR_EMPTY
             if isinstance(ty, TEnum):
@@ -323,7 +329,7 @@ class Interp:
                 return 'opt'
             if t == BOOL:
                 return 'bool'
-            if t in (INT, REAL):
+            if t in (INT, REAL, FP64):
                 return 'num'
             if t == STR:
                 return 'str'
@@ -373,6 +379,9 @@ class Interp:
         if fa in ('bool', 'num', 'str') or fa.startswith('enum:'):
             if not isinstance(a, SV) and not isinstance(b, SV):
                 return a == b
+            if self.is_fp(a) or self.is_fp(b):
+                ta, tb = self.fp_terms(a, b)
+                return z3.fpEQ(ta, tb)
             ta, tb = self.lift(a), self.lift(b)
             if ta.sort() != tb.sort():
                 if ta.sort() == I:
@@ -405,6 +414,22 @@ class Interp:
         if fa == 'dict':
             return self.dict_eq(a, b)
         raise Unsupported(f'== between {fa} values')
+
+    def is_fp(self, v):
+        return isinstance(v, SV) and v.ty == FP64
+
+    def fp_terms(self, a, b):
+        """operands of an IEEE comparison: fp64 values and python number literals (converted exactly / rounded as CPython
+        does when it compares a float with that literal)"""
+        out = []
+        for x in (a, b):
+            if self.is_fp(x):
+                out.append(x.t)
+            elif isinstance(x, (int, float)) and not isinstance(x, bool):
+                out.append(z3.FPVal(x, z3.Float64()))
+            else:
+                raise Unsupported('comparison of an fp64 value with a symbolic mathematical number')
+        return out
 
     def simp(self, t):
         t = z3.simplify(t)
@@ -1004,7 +1029,7 @@ class InterpExpr:
             return BoundMethod(obj, fi)
         cc = self.ct.find_class_const(cls, attr)
         if cc is not None:
-            v = self.class_const(cc)
+            v = self.class_const(cc, attr)
             if isinstance(v, (FuncV,)):   # function-valued class attribute is bound on access
                 return BoundMethod(obj, v.fi)
             return v
@@ -1014,8 +1039,24 @@ class InterpExpr:
                 return ext(self, obj)
         raise Unsupported(f'{cls}.{attr}: neither property, field, method nor class constant (line {line})')
 
-    def class_const(self, cc):
+    def class_heap_attr(self, dc, name):
+        """mutable class-level attribute declared in shapes.CLASS_HEAP_ATTRS: ONE heap object shared by every access
+        (python evaluates the class body once), allocated before the function under proof starts, contents unknown"""
+        ty = getattr(self.ts.shapes, 'CLASS_HEAP_ATTRS', {}).get((dc, name))
+        if ty is None:
+            return None
+        v = self.wrap(z3.Const(f'classattr:{dc}.{name}', Ref), ty)
+        self.assume_domain(v)
+        if getattr(self, 'old_heap', None) is not None:
+            self.run.assume(self.old_heap.get('alloc', arr(Ref, B))[v.ref], silent=True)
+        return v
+
+    def class_const(self, cc, name=None):
         dc, node = cc
+        if name is not None:
+            hv = self.class_heap_attr(dc, name)
+            if hv is not None:
+                return hv
         modname = self.ct.classes[dc].module
         if isinstance(node, tuple):
             _, idx, v = node
@@ -1037,7 +1078,7 @@ class InterpExpr:
                 return FuncV(fi)
             cc = self.ct.find_class_const(cname, attr)
             if cc is not None:
-                return self.class_const(cc)
+                return self.class_const(cc, attr)
             cd = self.ct.class_default(cname, attr)
             if cd is not None:
                 return self.ev(cd[0], Frame(None, cd[1], {}, None, cname))
@@ -1101,6 +1142,21 @@ class InterpExpr:
         if isinstance(base, SV) and isinstance(base.ty, TTuple):
             tup = self.wrap(base.t, base.ty)
             return self.getitem(tup, key, line)
+        if isinstance(base, ClassV) and self.ts.is_enum_class(base.name) and self.ts.enum_info(base.name)['is_enum']:
+            # EnumClass[name]: the member of that name, KeyError otherwise
+            members = self.ts.enum_info(base.name)['members']
+            if isinstance(key, str):
+                m = self.ts.enum_member(base.name, key)
+                if m is None:
+                    self.partial(False, 'KeyError', line)
+                    raise Unsupported('unknown enum member name in spec mode')
+                return m
+            if isinstance(key, SV) and (key.ty == STR or key.ty == TOpt(STR)):
+                self.partial(z3.Or([key.t == self.strlit(mn) for mn, _, _ in members]), 'KeyError', line)
+                t = None
+                for mn, code, _ in reversed(members):
+                    t = z3.IntVal(code) if t is None else z3.If(key.t == self.strlit(mn), code, t)
+                return SV(t, TEnum(base.name))
         h = self.reg.getitem_hook(self, base, key, line)
         if h is not NotImplemented:
             return h
@@ -1279,6 +1335,8 @@ class InterpExpr:
         if isinstance(v, (int, float)):
             return self.lift(v)
         if isinstance(v, SV):
+            if v.ty == FP64:
+                raise Unsupported(f'arithmetic on an fp64 value at line {line}')
             if v.ty == BOOL:
                 return z3.If(v.t, 1, 0)
             if v.ty in (INT, REAL):
@@ -1291,6 +1349,9 @@ class InterpExpr:
         if all(isinstance(x, (int, float)) and not isinstance(x, bool) for x in (a, b)) or all(isinstance(x, str) for x in (a, b)):
             return {ast.Lt: a < b, ast.LtE: a <= b, ast.Gt: a > b, ast.GtE: a >= b}[type(op)]
         fa, fb = self.family(a), self.family(b)
+        if self.is_fp(a) or self.is_fp(b):
+            ta, tb = self.fp_terms(a, b)
+            return self.simp({ast.Lt: z3.fpLT, ast.LtE: z3.fpLEQ, ast.Gt: z3.fpGT, ast.GtE: z3.fpGEQ}[type(op)](ta, tb))
         if fa == 'str' and fb == 'str':
             ta, tb = str_rank(self.lift(a)), str_rank(self.lift(b))
         elif fa == 'tuple' and fb == 'tuple':
@@ -1499,18 +1560,46 @@ class InterpExpr:
         # evaluate the embedded expressions for their exception-safety, the text itself is an opaque string
         parts = []
         allconst = True
+        tmpl, vals, plain = [], [], True
         for v in n.values:
             if isinstance(v, ast.FormattedValue):
                 x = self.ev(v.value, fr)
+                tmpl.append('{}')
+                vals.append(x)
+                if v.format_spec is not None or v.conversion != -1:
+                    plain = False
                 if isinstance(x, (str, int)) and not isinstance(x, bool) and v.format_spec is None and v.conversion == -1:
                     parts.append(str(x))
                 else:
                     allconst = False
             else:
                 parts.append(v.value)
+                tmpl.append(v.value.replace('{', '{{').replace('}', '}}'))
         if allconst:
             return ''.join(parts)
+        if plain:
+            r = self.template_str('fmt:' + ''.join(tmpl), vals)
+            if r is not None:
+                return r
         return self.reg.fstring_hook(self, n, fr)
+
+    def template_str(self, template, vals):
+        """text built from a literal template and scalar values (str / int / bool / enum): an uninterpreted but
+        deterministic function of the values (the same template applied to equal values gives equal strings);
+        None when a value is not a scalar (its text may depend on the heap)"""
+        import hashlib
+        terms = []
+        for x in vals:
+            if isinstance(x, (str, bool, int, EnumMember)):
+                terms.append(self.lift(x))
+            elif isinstance(x, SV) and (x.ty in (STR, INT, BOOL) or isinstance(x.ty, TEnum) or x.ty == TOpt(STR)):
+                terms.append(x.t)
+            else:
+                return None
+        f = z3.Function('tmpl_' + hashlib.md5(template.encode()).hexdigest()[:12], *([t.sort() for t in terms] + [Str]))
+        t = f(*terms)
+        self.run.assume(t != STR_NONE, silent=True)
+        return SV(t, STR)
 
     def ev_FormattedValue(self, n, fr):
         return self.ev(n.value, fr)
@@ -1567,6 +1656,9 @@ class InterpExpr:
             return list(v)
         if isinstance(v, str):
             return list(v)
+        if isinstance(v, ClassV) and self.ts.is_enum_class(v.name) and self.ts.enum_info(v.name)['is_enum']:
+            # iteration over an Enum class: its members in definition order
+            return [EnumMember(v.name, mn, code, val) for mn, code, val in self.ts.enum_info(v.name)['members']]
         return None
 
 
